@@ -826,6 +826,19 @@ def to_const_poly(e: expr.Expr) -> ConstantPolynomial:
 def normalize_constant(e):
     return from_const_poly(to_const_poly(e))
 
+def in_principal_range(func_name: str, x: expr.Expr, conds: Conditions) -> bool:
+    """Whether the conditions place x in the range of atan / acot."""
+    from integral.interval import Interval
+    if func_name == "atan":
+        rng = Interval.open(-(expr.pi / 2), expr.pi / 2)
+    else:
+        rng = Interval.open(expr.Const(0), expr.pi)
+    try:
+        bounds = conds.get_bounds_for_expr(x)
+        return bounds is not None and bounds.contained_in(rng)
+    except Exception:
+        return False
+
 def to_poly(e: expr.Expr, conds: Conditions) -> Polynomial:
     """Convert expression to polynomial."""
     if e.is_var():
@@ -906,8 +919,9 @@ def to_poly(e: expr.Expr, conds: Conditions) -> Polynomial:
 
     elif e.is_fun() and e.func_name in ("asin", "acos", "atan", "acot", "acsc", "asec"):
         a, = e.args
-        if e.func_name in ("atan", "acot") and a.is_fun() and a.func_name == e.func_name[1:]:
-            # atan(tan(x)) = x
+        if e.func_name in ("atan", "acot") and a.is_fun() and a.func_name == e.func_name[1:] and \
+                in_principal_range(e.func_name, a.args[0], conds):
+            # atan(tan(x)) = x for x in (-pi/2, pi/2), acot(cot(x)) = x for x in (0, pi)
             return to_poly(a.args[0], conds)
         else:
             return singleton(expr.Fun(e.func_name, normalize(a, conds)), conds)
